@@ -10,4 +10,5 @@ sys.path.insert(0, '.')
 from savf import engine
 d, th, fresh = engine.extract('/repo', 'all')
 print('facts for tree', th, 'in', d, '(fresh)' if fresh else '(cached)')
+print('derive corpus facts:', engine.extract_corpus('/repo'))
 PY
